@@ -1112,7 +1112,7 @@ def write(repo=None, verif=None):
     """returns status dict; status['status'] = 'ok' | 'translator-out-of-grammar' (reference text written)"""
     repo = repo or os.environ.get("VERIF_REPO", "/repo")
     verif = verif or VERIF
-    outfile = os.path.join(verif, "coq", "gen", "VtableGen.v")
+    outfile = os.path.join(os.environ.get("VERIF_GEN_OUT") or os.path.join(verif, "coq", "gen"), "VtableGen.v")
     try:
         txt, st = generate(repo)
         st["status"] = "ok"
